@@ -230,6 +230,12 @@ func put(v interface{}, path string, value interface{}, prepend bool, set func(i
 			return Missing, false
 		}
 
+		// refuse to pad the array with an unreasonable number of elements
+		// (an index near the integer limit also overflows the loop below)
+		if index-len(arr) > maxArrayPadding {
+			return Missing, false
+		}
+
 		// fill with nil elements
 		for i := len(arr); i < index+1; i++ {
 			arr = append(arr, nil)
@@ -273,6 +279,11 @@ func put(v interface{}, path string, value interface{}, prepend bool, set func(i
 
 	return Missing, false
 }
+
+// maxArrayPadding is the maximum number of null elements that are added to an
+// array to reach an index beyond its end (MongoDB refuses to backfill more
+// than 1500000 elements as well).
+const maxArrayPadding = 1500000
 
 // Increment will add the increment to the value at the location in the document
 // specified by path and return the new value. If the value is missing, the
